@@ -554,3 +554,66 @@ func compactScenario(seed int64, idx int, emit func(e2eRec)) {
 	}
 	emit(rec)
 }
+
+// bitConvertScenario: a bitmap written in the old format (one string value) is converted to segment keys by the
+// first new-format SETBIT; the conversion and the new bit touch the same segment key, every bit must survive
+// and the neighbours must not change.
+func bitConvertScenario(seed int64, policy string, emit func(e2eRec)) {
+	dir, err := os.MkdirTemp("", "verif-codec-bit-")
+	if err != nil {
+		panic(err)
+	}
+	defer os.RemoveAll(dir)
+	c0 := rr.NewRockRedisDBConfig()
+	c0.EngineType = "mem"
+	c0.DataDir = dir
+	if policy == "compact" {
+		c0.ExpirationPolicy = common.WaitCompact
+		c0.DataVersion = common.ValueHeaderV1
+	}
+	db, err := rr.OpenRockDB(c0)
+	rec := e2eRec{ID: "bm" + policy[:1], Seed: seed, Policy: policy, Op: "SETBIT converts an old-format bitmap"}
+	if err != nil {
+		rec.Err = "open: " + err.Error()
+		emit(rec)
+		return
+	}
+	defer db.Close()
+	r := hx.NewRng(seed*3 + 11)
+	ts := int64(1700000000000000000)
+	db.BitSetOld(ts+1, []byte("t:bn"), 5, 1)
+	db.BitSetV2(ts+2, []byte("t:bl"), 5, 1)
+	ts += 10
+	// the new bit in the first segment, at a segment border, in the last old segment, beyond the old data
+	for i, newOff := range []int64{77, 8191, 8201, 20000 + 8192*2} {
+		key := []byte(fmt.Sprintf("t:bm%d", i))
+		offs := []int64{3, 10, 4000 + int64(r.Pick(100)), 8200, 20000 + int64(r.Pick(1000))}
+		for _, o := range offs {
+			ts += 1000
+			if _, err := db.BitSetOld(ts, key, o, 1); err != nil {
+				rec.Err = "BitSetOld: " + err.Error()
+				emit(rec)
+				return
+			}
+		}
+		ts += 1000
+		if _, err := db.BitSetV2(ts, key, newOff, 1); err != nil {
+			rec.Err = "BitSetV2: " + err.Error()
+		}
+		for _, o := range append(offs, newOff) {
+			if b, err := db.BitGetV2(key, o); err != nil || b != 1 {
+				rec.Logical = append(rec.Logical, fmt.Sprintf("bit %d of the converted bitmap %s reads %d (%v) after SETBIT %d", o, key, b, err, newOff))
+			}
+		}
+		if n, err := db.BitCountV2(key, 0, -1); err != nil || n != int64(len(offs)+1) {
+			rec.Logical = append(rec.Logical, fmt.Sprintf("BITCOUNT of the converted bitmap %s = %d (%v), want %d", key, n, err, len(offs)+1))
+		}
+	}
+	if b, _ := db.BitGetV2([]byte("t:bn"), 5); b != 1 {
+		rec.Logical = append(rec.Logical, "the neighbour old-format bitmap t:bn lost its bit")
+	}
+	if b, _ := db.BitGetV2([]byte("t:bl"), 5); b != 1 {
+		rec.Logical = append(rec.Logical, "the neighbour bitmap t:bl lost its bit")
+	}
+	emit(rec)
+}
